@@ -181,6 +181,7 @@ type Result struct {
 	EngineErrors     []string
 	Reached          map[string]int64
 	Functions        map[string]bool
+	Blocks           map[*ssa.BasicBlock]bool
 	Intrinsics       map[string]bool
 	Assumptions      map[string]bool
 	Samples          []PathSample
@@ -229,7 +230,7 @@ func (m *Machine) Explore(entry *ssa.Function, cfg Config) *Result {
 	if cfg.MaxFailures == 0 {
 		cfg.MaxFailures = 600
 	}
-	res := &Result{Harness: entry.String(), Reached: map[string]int64{}, Functions: map[string]bool{}, Intrinsics: map[string]bool{}, Assumptions: map[string]bool{}}
+	res := &Result{Harness: entry.String(), Reached: map[string]int64{}, Functions: map[string]bool{}, Blocks: map[*ssa.BasicBlock]bool{}, Intrinsics: map[string]bool{}, Assumptions: map[string]bool{}}
 	p := &explorePool{res: res, m: m, cfg: cfg, entry: entry, failCount: map[string]int{}}
 	res.FailureCounts = map[string]int{}
 	p.cond = sync.NewCond(&p.mu)
@@ -382,6 +383,9 @@ func (p *explorePool) worker(id int) {
 	}
 	for f := range funcs {
 		p.res.Functions[f.String()] = true
+	}
+	for b := range ex.blocks {
+		p.res.Blocks[b] = true
 	}
 	p.cond.Broadcast()
 	p.mu.Unlock()
@@ -614,4 +618,74 @@ func (m *Machine) RunUnitTest(fn *ssa.Function, cfg Config) (outcomes []TestOutc
 		queue = append(queue, ex.forks...)
 	}
 	return
+}
+
+// BlockCoverage reports, for every function of the target packages declared
+// outside the harness overlay, which basic blocks were executed.
+type BlockInfo struct {
+	Func  string
+	Index int
+	Pos   string
+	Seen  bool
+}
+
+func (m *Machine) BlockCoverage(seen map[*ssa.BasicBlock]bool, isTarget func(file string) bool) []BlockInfo {
+	var out []BlockInfo
+	var fns []*ssa.Function
+	done := map[*ssa.Function]bool{}
+	var visit func(fn *ssa.Function)
+	visit = func(fn *ssa.Function) {
+		if fn == nil || done[fn] || fn.Blocks == nil {
+			return
+		}
+		done[fn] = true
+		for _, a := range fn.AnonFuncs {
+			visit(a)
+		}
+		if !fn.Pos().IsValid() || !isTarget(m.Prog.Fset.Position(fn.Pos()).Filename) {
+			return
+		}
+		if fn.TypeParams().Len() > 0 && len(fn.TypeArgs()) == 0 {
+			return // generic origin: the executed instances are listed
+		}
+		fns = append(fns, fn)
+	}
+	for _, pkg := range m.Pkgs {
+		for _, mem := range pkg.Members {
+			switch mem := mem.(type) {
+			case *ssa.Function:
+				visit(mem)
+			case *ssa.Type:
+				if _, ok := mem.Type().Underlying().(*types.Interface); ok {
+					continue
+				}
+				for _, t := range []types.Type{mem.Type(), types.NewPointer(mem.Type())} {
+					ms := m.Prog.MethodSets.MethodSet(t)
+					for i := 0; i < ms.Len(); i++ {
+						if ms.At(i).Obj().Pkg() == pkg.Pkg && len(ms.At(i).Index()) == 1 {
+							visit(m.Prog.MethodValue(ms.At(i)))
+						}
+					}
+				}
+			}
+		}
+	}
+	for b := range seen {
+		visit(b.Parent())
+	}
+	sort.Slice(fns, func(i, j int) bool { return fns[i].String() < fns[j].String() })
+	for _, fn := range fns {
+		for _, b := range fn.Blocks {
+			pos := ""
+			for _, in := range b.Instrs {
+				if in.Pos().IsValid() {
+					p := m.Prog.Fset.Position(in.Pos())
+					pos = fmt.Sprintf("%s:%d", p.Filename, p.Line)
+					break
+				}
+			}
+			out = append(out, BlockInfo{fn.String(), b.Index, pos, seen[b]})
+		}
+	}
+	return out
 }
